@@ -45,7 +45,7 @@ def classify(res, mism):
 def run(tier, seed):
     res = vlib.Result(PROP, tier, seed, "model_checking")
     vlib.build_harness()
-    cfgs = ["MC_C12_full2", "MC_C12_leg3"] if tier == "quick" else ["MC_C12_full2", "MC_C12_leg3", "MC_C12_red3", "MC_C12_wide2"]
+    cfgs = ["MC_C12_full2", "MC_C12_leg3", "MC_C12_mid3"] if tier == "quick" else ["MC_C12_full2", "MC_C12_leg3", "MC_C12_mid3", "MC_C12_red3", "MC_C12_wide2"]
     behaviours = []
     for cfg in cfgs:
         r = vlib.tlc_must_pass(vlib.tlc("MC_C12", cfg, workers=8 if tier == "quick" else 14, timeout=3000))
